@@ -182,7 +182,8 @@ func Simulate(sc *Scenario) *Sim {
 		height = 80
 	}
 	if sc.Cfg.PtyRows > 0 {
-		height = sc.Cfg.PtyRows
+		// a terminal keeps one line for the cursor, which rests below the last row
+		height = sc.Cfg.PtyRows - 1
 	}
 	for i := range sc.Bars {
 		s.Bars = append(s.Bars, &mcBar{spec: &sc.Bars[i]})
